@@ -477,6 +477,70 @@ def r11_7_no_entropy(ctx):
     ctx.require_min("R11.7", 5)
 
 
+_B = "builder method of the fluent construction syntax: completes the expression before it is used"
+_G = "wiring of the block graph during lowering / the graph passes (blocks are created per compilation)"
+_O = "per-compilation CompileOptions bookkeeping (the object is created in _compile_impl)"
+_R = "registration of a method or bare call on a Router (the router's purpose)"
+_P = "late binding of placeholders by the slot / subroutine / label passes on per-compilation ops"
+_L = "lazy cache of a value derived from immutable inputs of the same object (source-map frames, source mapper results)"
+_D = "per-convention declaration cache of a subroutine (R11.6 covers its interaction with the id counter)"
+_V = "cycle guard of a recursive __repr__ / __eq__, reset before return"
+STATE_MUTATION_OK = {
+    ("ASTBuilder", "_clean_bare_calls", "bare_calls"): _R, ("ASTBuilder", "add_method_to_ast", "methods_with_conds"): _R,
+    ("CompileOptions", "addLoopBreakBlock", "breakBlocksStack"): _O, ("CompileOptions", "addLoopContinueBlock", "continueBlocksStack"): _O, ("CompileOptions", "enterLoop", "breakBlocksStack"): _O,
+    ("CompileOptions", "enterLoop", "continueBlocksStack"): _O, ("CompileOptions", "setSubroutine", "currentSubroutine"): _O,
+    ("For", "Do", "doBlock"): _B, ("If", "Else", "elseBranch"): _B, ("If", "ElseIf", "elseBranch"): _B, ("If", "Then", "thenBranch"): _B, ("While", "Do", "doBlock"): _B,
+    ("LabelReference", "addPrefix", "label"): _P, ("TealOp", "assignSlot", "args"): _P, ("TealOp", "resolveSubroutine", "args"): _P,
+    ("PyTealFrame", "file", "_file"): _L, ("PyTealFrame", "raw_code", "_raw_code"): _L, ("PyTealFrame", "root", "_root"): _L,
+    ("_PyTealSourceMapper", "_build_pc_sourcemap", "_cached_pc_sourcemap"): _L, ("_PyTealSourceMapper", "_build_r3sourcemap", "_cached_r3sourcemap"): _L, ("_PyTealSourceMapper", "build", "_best_frames"): _L,
+    ("_PyTealSourceMapper", "build", "_cached_tmis"): _L, ("_PyTealSourceMapper", "build", "_inferred_frames_at"): _L,
+    ("Router", "add_method_handler", "method_configs"): _R, ("Router", "add_method_handler", "method_selector_to_sig"): _R, ("Router", "add_method_handler", "method_sig_to_selector"): _R, ("Router", "add_method_handler", "methods"): _R,
+    ("TealConditionalBlock", "replaceOutgoing", "falseBlock"): _G, ("TealConditionalBlock", "replaceOutgoing", "trueBlock"): _G, ("TealConditionalBlock", "setFalseBlock", "falseBlock"): _G, ("TealConditionalBlock", "setTrueBlock", "trueBlock"): _G,
+    ("TealSimpleBlock", "replaceOutgoing", "nextBlock"): _G, ("TealSimpleBlock", "setNextBlock", "nextBlock"): _G, ("TealSimpleBlock", "__eq__", "visited"): _V, ("TealSimpleBlock", "__repr__", "visited"): _V,
+    ("_SubroutineDeclByOption", "__info_prepare", "has_return"): _D, ("_SubroutineDeclByOption", "__info_prepare", "type_of"): _D, ("_SubroutineDeclByOption", "__probe_info", "option_map"): _D,
+    ("_SubroutineDeclByOption", "get_declaration_by_option", "option_map"): _D, ("_SubroutineDeclByOption", "get_declarations", "option_map"): _D,
+}
+_MUTATORS = {"append", "extend", "insert", "pop", "remove", "clear", "add", "update", "setdefault", "discard", "popitem", "sort", "reverse", "__setitem__"}
+
+
+def r11_8_object_state_inventory(ctx):
+    ctx.rule("R11.8", "objects are not changed by being used: the methods (other than constructors) that assign, index-assign or call a mutating method on an attribute of their own object form a closed, individually justified inventory - builder methods, graph wiring, per-compilation bookkeeping, placeholder binding, registration on a router, a few lazy caches of immutable inputs. A new entry (a memo, a holder, a 'built on first use' field) makes a later use depend on an earlier one")
+    seen = set()
+    for c in ctx.model.iter_classes():
+        if not c.module.name.startswith("pyteal.") or c.module.name.endswith("_test"):
+            continue
+        for nm, f in c.methods.items():
+            if nm in ("__init__", "__post_init__"):
+                continue
+            for st in walk_local(f.node):
+                hits = []
+                tg = st.targets if isinstance(st, ast.Assign) else ([st.target] if isinstance(st, (ast.AugAssign, ast.AnnAssign)) else [])
+                for x in tg:
+                    base = x
+                    while isinstance(base, ast.Subscript):
+                        base = base.value
+                    if isinstance(base, ast.Attribute) and u(base.value) == "self":
+                        hits.append(base.attr)
+                if isinstance(st, ast.Expr) and isinstance(st.value, ast.Call) and isinstance(st.value.func, ast.Attribute) and st.value.func.attr in _MUTATORS:
+                    b = st.value.func.value
+                    while isinstance(b, ast.Subscript):
+                        b = b.value
+                    if isinstance(b, ast.Attribute) and u(b.value) == "self":
+                        hits.append(b.attr)
+                for attr in hits:
+                    key = (c.name, nm, attr)
+                    if key in seen:
+                        continue
+                    seen.add(key)
+                    if key in STATE_MUTATION_OK:
+                        ctx.ok("R11.8", f"{c.name}.{nm}:self.{attr}", {"reason": STATE_MUTATION_OK[key]}, f"{f.module.rel}:{st.lineno}")
+                    else:
+                        ctx.bad("R11.8", f"{c.name}.{nm}:self.{attr}", f"{c.name}.{nm} changes `self.{attr}`: the object now remembers an earlier use (what the next caller gets - an expression with the first call site's identity, a stale list, a cached result - depends on history)", f"{f.module.rel}:{st.lineno}")
+    for key in sorted(set(STATE_MUTATION_OK) - seen):
+        ctx.uncheck(f"state inventory entry {key} no longer exists")
+    ctx.require_min("R11.8", 30)
+
+
 def run(ctx):
     r11_1_inventory(ctx)
     r11_2_ids_by_order(ctx)
@@ -486,6 +550,7 @@ def run(ctx):
     r11_6_rewind_discards(ctx)
     r11_6b_rewind_to_saved_value(ctx)
     r11_7_no_entropy(ctx)
+    r11_8_object_state_inventory(ctx)
     from rules import c03 as _c03
 
     _c03.r03_1_skip_set(ctx)  # optimiser skip set recomputed per compilation (state on a reusable OptimizeOptions object)
